@@ -11,7 +11,7 @@
 //!     values), no point of a local scan mode ± IQR*2^-j (j = 0..40) and, for discrete families, no
 //!     lattice point of the support window has a density exceeding (by more than 1e-9 relative) the
 //!     largest density in a small neighbourhood of mode() (mode, its float neighbours, mode*(1±1e-9);
-//!     lattice: floor(mode)-1 ..= ceil(mode)+1); mode() is not NaN and lies in [min,max].
+//!     lattice: floor(mode) ..= ceil(mode)); mode() is not NaN and lies in [min,max].
 //!   * min()/max(): density and cdf are exactly 0 below min, density 0 and cdf 1 above max and
 //!     cdf(max) = 1; tightness for finite end points: just inside the 1e-6 / 1e-30 / 1e-100 lower
 //!     quantiles (1-1e-6 / 1-1e-12 upper) located on the implementation's cdf there is still
@@ -201,7 +201,9 @@ fn mode_value_d(o: &Arc<dyn DObj>) -> Result<Option<f64>, Fail> {
 }
 fn mode_level_d(o: &Arc<dyn DObj>, m: f64) -> f64 {
     let mut best = f64::NEG_INFINITY;
-    for k in (m.floor() as i128 - 1)..=(m.ceil() as i128 + 1) {
+    // lattice families: the claimed mode itself (an adjacent lattice point is a different point of the support,
+    // not an end-point convention; exact ties such as Poisson(λ ∈ ℕ) at λ and λ−1 have equal mass and pass)
+    for k in (m.floor() as i128)..=(m.ceil() as i128) {
         let p = pmf_of(o, k);
         if !p.is_nan() && p > best {
             best = p;
